@@ -2,7 +2,9 @@
 // Real code under contract: the literal-token actions of the grammar (parser.lalrpop: Integer, Float, Meta integer),
 // FileInfo::trans_span2 (offset -> line/column used by every diagnostic), Meta::integer, IntegerLiteral::new, From<f64> for FloatLiteral.
 // Obligation kinds: panic-unreachable (unwrap/expect/panic!), index, overflow; and "every location lies inside the file".
+#![feature(pattern)]
 use vstd::prelude::*;
+use vstd::string::StringSliceAdditionalSpecFns;
 use std::{path::PathBuf, sync::Arc};
 verus! {
 
@@ -131,20 +133,136 @@ impl core::convert::From<f64> for FloatLiteral {
         r is Float64,
 /*@end*/
 
+// ---- string-literal escapes (lang/surface/src/textual/escape.rs) ----
+// A-str-contains: `str::contains(char)` has no vstd specification; its result is an uninterpreted predicate (nothing is assumed about it:
+// both branches are verified for either answer)
+pub uninterp spec fn str_has(s: &str, found: bool) -> bool;
+#[verifier::allow(undeclared_external_trait)]
+pub assume_specification<P> [str::contains] (_0: &str, _1: P) -> (r: bool)
+    where P: std::str::pattern::Pattern,
+    ensures str_has(_0, r);
+// "the text never ends in the middle of an escape": scanning from character k, every backslash is followed by a character
+pub open spec fn well_escaped(items: Seq<(usize, char)>, k: int) -> bool
+    decreases items.len() - k
+{
+    if k >= items.len() || k < 0 { true }
+    else if items[k].1 == '\\' { k + 1 < items.len() && well_escaped(items, k + 2) }
+    else { well_escaped(items, k + 1) }
+}
+/*@fn lang/surface/src/textual/escape.rs :: fn apply_string_escapes
+   loop 0: invariant
+       ci_items(iter).len() <= indices_of(code).len(),
+       ci_items(iter) == indices_of(code).skip(indices_of(code).len() - ci_items(iter).len()),
+       // [ESC-inductive] what is left to scan still never ends inside an escape
+       well_escaped(indices_of(code), indices_of(code).len() - ci_items(iter).len()),
+     decreases ci_items(iter).len(),
+@*/
+    requires
+        // [ESC-PRE] what the String token's regex `"(\\.|[^"\\])*"` guarantees for the text between the quotes (assumption A3, evaluated
+        // at run time): a backslash is always followed by a character
+        well_escaped(indices_of(code), 0),
+    ensures
+        // [ESC-TOTAL] total: the `unwrap` on the character after a backslash is unreachable (panic-unreachable obligation of this function)
+        true,
+/*@end*/
+pub proof fn reach_well_escaped(a: Seq<(usize, char)>)
+    requires a == seq![(0usize, 'a'), (1usize, '\\'), (2usize, 'n')],
+    ensures well_escaped(a, 0), !well_escaped(a.subrange(0, 2), 0),
+{
+    assert(well_escaped(a, 3));
+    assert(well_escaped(a, 1));
+    let b = a.subrange(0, 2);
+    assert(b[1].1 == '\\');
+    assert(!well_escaped(b, 1));
+}
+
 // ---- offset -> line/column ----
+// A-str-model: std's `str::char_indices` as a sequence of (byte offset, character) pairs with strictly increasing offsets, each
+// inside the string (std: offsets are the starts of the UTF-8 encodings); `str::len` is vstd's own (byte length)
+#[verifier::external_type_specification]
+#[verifier::external_body]
+pub struct ExCharIndices<'a>(core::str::CharIndices<'a>);
+pub uninterp spec fn ci_items(it: core::str::CharIndices) -> Seq<(usize, char)>;   // the items still to come
+pub uninterp spec fn indices_of(s: &str) -> Seq<(usize, char)>;
+pub assume_specification<'a>[ str::char_indices ](s: &'a str) -> (r: core::str::CharIndices<'a>)
+    ensures ci_items(r) == indices_of(s);
+pub assume_specification<'a>[ <core::str::CharIndices<'a> as Iterator>::next ](it: &mut core::str::CharIndices<'a>) -> (r: Option<(usize, char)>)
+    ensures
+        ci_items(*old(it)).len() == 0 ==> r is None && ci_items(*final(it)) == ci_items(*old(it)),
+        ci_items(*old(it)).len() > 0 ==> r == Some(ci_items(*old(it))[0]) && ci_items(*final(it)) == ci_items(*old(it)).skip(1);
+pub proof fn axiom_char_indices(s: &str)
+    ensures
+        s.spec_bytes().len() <= isize::MAX,
+        forall|k: int| 0 <= k < indices_of(s).len() ==> (#[trigger] indices_of(s)[k]).0 < s.spec_bytes().len(),
+        forall|j: int, k: int| 0 <= j < k < indices_of(s).len() ==> (#[trigger] indices_of(s)[j]).0 < (#[trigger] indices_of(s)[k]).0,
+{ admit(); }
+// the line table of the first n characters: 0, then one past every newline among them
+pub open spec fn lines_upto(items: Seq<(usize, char)>, n: int) -> Seq<usize>
+    decreases n
+{
+    if n <= 0 { seq![0usize] }
+    else if items[n - 1].1 == '\n' { lines_upto(items, n - 1).push((items[n - 1].0 + 1) as usize) }
+    else { lines_upto(items, n - 1) }
+}
+// every entry of that table is 0 or one past a newline's offset; entries increase; so they stay inside the text
+pub proof fn lemma_lines_upto(s: &str, n: int)
+    requires 0 <= n <= indices_of(s).len(),
+    ensures
+        lines_upto(indices_of(s), n).len() >= 1,
+        lines_upto(indices_of(s), n)[0] == 0,
+        forall|i: int, j: int| 0 <= i < j < lines_upto(indices_of(s), n).len() ==> lines_upto(indices_of(s), n)[i] < lines_upto(indices_of(s), n)[j],
+        forall|i: int| 0 <= i < lines_upto(indices_of(s), n).len() ==> lines_upto(indices_of(s), n)[i] <= s.spec_bytes().len(),
+        // the last entry is at most one past the offset of the last character looked at
+        n > 0 ==> lines_upto(indices_of(s), n).last() <= indices_of(s)[n - 1].0 + 1,
+        n == 0 ==> lines_upto(indices_of(s), n).last() == 0,
+    decreases n
+{
+    axiom_char_indices(s);
+    if n > 0 {
+        lemma_lines_upto(s, n - 1);
+        if n > 1 { assert(indices_of(s)[n - 2].0 < indices_of(s)[n - 1].0); }
+    }
+}
 /*@type lang/utils/src/span.rs :: struct Cursor2 @*/
 /*@type lang/utils/src/span.rs :: struct FileInfo
    derive Debug
 @*/
 
 impl FileInfo {
-    // what FileInfo::new establishes (proved for bounded inputs by Kani, unit c10_kani harness file_info_new_wf)
+    // what FileInfo::new establishes ([NEW-WF] below, for every string) and trans_span2 relies on
     pub open spec fn wf(&self) -> bool {
         &&& self.line_starts.len() >= 1
         &&& self.line_starts[0] == 0
         &&& forall|i: int, j: int| 0 <= i < j < self.line_starts.len() ==> self.line_starts[i] < self.line_starts[j]
         &&& forall|i: int| 0 <= i < self.line_starts.len() ==> self.line_starts[i] <= self.text_len
     }
+
+/*@fn lang/utils/src/span.rs :: impl FileInfo :: fn new
+   desugar_for 0 it
+   loop 0: invariant
+       ci_items(it).len() <= indices_of(s).len(),
+       ci_items(it) == indices_of(s).skip(indices_of(s).len() - ci_items(it).len()),
+       // [NEW-inductive] the table built so far is the table of the characters consumed so far
+       line_starts@ == lines_upto(indices_of(s), indices_of(s).len() - ci_items(it).len()),
+     ensures ci_items(it).len() == 0,
+     decreases ci_items(it).len(),
+   proof /let text_len = s\.len\(\)/: proof {
+       axiom_char_indices(s);
+       lemma_lines_upto(s, indices_of(s).len() as int);
+   }
+   proof /line_starts\.push\(i \+ 1\)/: proof {
+       axiom_char_indices(s);
+       assert(indices_of(s)[indices_of(s).len() - ci_items(it).len() - 1] == (i, c));
+   }
+@*/
+    ensures
+        // [NEW-LINES] the line table is exactly: 0, then one past every newline character, in order
+        r.line_starts@ == lines_upto(indices_of(s), indices_of(s).len() as int),
+        // [NEW-LEN]
+        r.text_len == s.spec_bytes().len(),
+        // [NEW-WF] ... which is the well-formedness trans_span2 relies on: so EVERY file has a usable line table (also the empty one)
+        r.wf(),
+/*@end*/
 
 /*@fn lang/utils/src/span.rs :: impl FileInfo :: fn trans_span2
    loop 0: invariant
